@@ -492,6 +492,8 @@ func checkC16(p *Prog, r *Report) {
 		r.fn(funcName(f))
 	}
 	checkRelsSorted(p, r, rels)
+	r.rule("C16.listing-complete: the loop of Schema.Rels (or its helper) that stores Normalize() of each relationship into the set does so on every iteration (only a membership test on the set itself may skip it)")
+	checkRelsComplete(p, r, rels)
 }
 
 func ordSym(c int) string {
@@ -1048,4 +1050,94 @@ func elemOfSorted(v ssa.Value, cmp *ssa.Function) (int, string, bool) {
 		}
 	}
 	return 0, "", false
+}
+
+// checkRelsComplete: the listing visits every relationship of every type: in
+// the loop that feeds the normalised relationships into the set (or list) the
+// store happens on every trip round the loop - no path from the top of the
+// body back to the loop head avoids it, except under a membership test on the
+// set itself.
+func checkRelsComplete(p *Prog, r *Report, rels *ssa.Function) {
+	n := 0
+	for _, f := range p.cg.Reachable(rels) {
+		if f.Pkg != rels.Pkg {
+			continue
+		}
+		eachInstr(f, func(ins ssa.Instruction) {
+			var stored ssa.Value
+			var set ssa.Value
+			switch x := ins.(type) {
+			case *ssa.MapUpdate:
+				stored, set = x.Key, x.Map
+			default:
+				return
+			}
+			fromNormalize := false
+			for _, o := range originsDeep(stored) {
+				v := o
+				if ld, ok := v.(*ssa.UnOp); ok && ld.Op == token.MUL {
+					if al, ok := ld.X.(*ssa.Alloc); ok {
+						if sv := singleStore(al); sv != nil {
+							v = sv
+						}
+					}
+				}
+				if c, _ := callOf(v); c != nil && c.Common().StaticCallee() != nil && c.Common().StaticCallee().Name() == "Normalize" {
+					fromNormalize = true
+				}
+			}
+			if !fromNormalize {
+				return
+			}
+			// innermost loop around the store
+			var loop map[*ssa.BasicBlock]bool
+			var head *ssa.BasicBlock
+			for _, h := range f.Blocks {
+				if l := naturalLoop(h); l != nil && l[ins.Block()] && (loop == nil || len(l) < len(loop)) {
+					loop, head = l, h
+				}
+			}
+			if loop == nil {
+				return
+			}
+			n++
+			seen := map[*ssa.BasicBlock]bool{}
+			var skip bool
+			var walk func(b *ssa.BasicBlock)
+			walk = func(b *ssa.BasicBlock) {
+				if skip || seen[b] || !loop[b] {
+					return
+				}
+				if b == head {
+					skip = true
+					return
+				}
+				if b == ins.Block() {
+					return
+				}
+				seen[b] = true
+				if ifi, ok := b.Instrs[len(b.Instrs)-1].(*ssa.If); ok {
+					// a membership test on the set itself may skip the store
+					for _, o := range originsDeep(ifi.Cond) {
+						if ex, ok := o.(*ssa.Extract); ok {
+							if lk, ok := ex.Tuple.(*ssa.Lookup); ok && lk.X == set {
+								return
+							}
+						}
+					}
+				}
+				for _, s := range b.Succs {
+					walk(s)
+				}
+			}
+			for _, s := range head.Succs {
+				if loop[s] {
+					walk(s)
+				}
+			}
+			r.decide(!skip, "C16.listing-complete", funcName(f)+":"+p.describe(ins), p.pos(ins.Pos()), "every relationship visited is put into the set",
+				"a trip round the loop that collects the normalised relationships can skip the store: some relationships (both ends of a pair inside one type, say) are listed from neither end")
+		})
+	}
+	r.floor("collection loops of Schema.Rels", n, 1)
 }
